@@ -47,8 +47,83 @@ def disarm():
     signal.setitimer(signal.ITIMER_REAL, 0)
 
 
+AC = [False]      # ac analysis: values are Gaussian rationals, reported as 're|im'; s stands for j omega
+
+
+def geval(x):
+    """exact value (re, im) as Fractions of a symbol-free sympy expression built from rationals, I, +, *, integer powers"""
+    from fractions import Fraction
+    if x.is_Rational:
+        return (Fraction(int(x.p), int(x.q)), Fraction(0))
+    if x == sp.I:
+        return (Fraction(0), Fraction(1))
+    if x.is_Add:
+        re_, im_ = Fraction(0), Fraction(0)
+        for a in x.args:
+            r, i = geval(a)
+            re_ += r
+            im_ += i
+        return (re_, im_)
+    if x.is_Mul:
+        re_, im_ = Fraction(1), Fraction(0)
+        for a in x.args:
+            r, i = geval(a)
+            re_, im_ = re_ * r - im_ * i, re_ * i + im_ * r
+        return (re_, im_)
+    if x.is_Pow and x.exp.is_Integer:
+        r, i = geval(x.base)
+        n = int(x.exp)
+        if n < 0:
+            d = r * r + i * i
+            r, i = r / d, -i / d
+            n = -n
+        re_, im_ = Fraction(1), Fraction(0)
+        for _ in range(n):
+            re_, im_ = re_ * r - im_ * i, re_ * i + im_ * r
+        return (re_, im_)
+    raise ValueError('not a Gaussian rational expression: %s' % x.func)
+
+
+def cfmt(x):
+    """'re|im' for an exact Gaussian rational sympy number, else None"""
+    x = sp.sympify(x)
+    try:
+        r, i = geval(x)
+        return '%d/%d|%d/%d' % (r.numerator, r.denominator, i.numerator, i.denominator)
+    except (ValueError, ZeroDivisionError):
+        pass
+    re_, im_ = x.as_real_imag()
+    if not (re_.is_Rational and im_.is_Rational):
+        x = sp.simplify(x)
+        re_, im_ = x.as_real_imag()
+    if re_.is_Rational and im_.is_Rational:
+        return '%d/%d|%d/%d' % (re_.p, re_.q, im_.p, im_.q)
+    return None
+
+
+def crat(x, point, eps0=False):
+    try:
+        x = sp.sympify(getattr(x, 'sympy', x))
+        sub = {}
+        for sy in x.free_symbols:
+            if sy == EPS:
+                sub[sy] = 0
+            elif sy.name in point:
+                sub[sy] = point[sy.name]
+        x = x.subs(sub)
+        if x.has(sp.zoo, sp.oo, sp.nan) or x.free_symbols:
+            return None
+        return cfmt(x)
+    except CaseTimeout:
+        raise
+    except Exception:
+        return None
+
+
 def rat(x, point):
     """exact rational value of a sympy/lcapy expression at the point, else None"""
+    if AC[0]:
+        return crat(x, point)
     try:
         x = sp.sympify(getattr(x, 'sympy', x))
     except Exception:
@@ -80,6 +155,8 @@ def rat(x, point):
 
 def rat_eps0(x, point):
     """matrix entry with eps -> 0 (capacitor = open circuit at dc) at the point"""
+    if AC[0]:
+        return crat(x, point)
     try:
         x = sp.sympify(getattr(x, 'sympy', x))
         sub = {}
@@ -170,12 +247,19 @@ def dump_sub(sn, point):
                 pass
         d['tp_has_src'] = src
         if elt.type == 'K':
+            # textbook mutual impedance / inductance and the initial currents of the coupled inductors as the netlist gives them
             try:
                 ZL1 = sn.elements[elt.Lname1].Z.sympy
                 ZL2 = sn.elements[elt.Lname2].Z.sympy
                 kk = elt.cpt.K.sympy
+                slike = str(sn.kind) in ('s', 'ivp', 'laplace', 'transient')
                 params['pZM0'] = params['pZM1'] = rat(sp.sqrt(sp.cancel(ZL1 * ZL2 / ssym**2)) * ssym * kk, point) \
-                    if str(sn.kind) in ('s', 'ivp', 'laplace', 'transient') else rat(kk * sp.sqrt(sp.simplify(ZL1 * ZL2)), point)
+                    if slike else rat(kk * sp.sqrt(sp.simplify(ZL1 * ZL2)), point)
+                if slike:
+                    params['pZM2'] = rat(kk * sp.sqrt(sp.cancel(ZL1 / ssym) * sp.cancel(ZL2 / ssym)), point)
+                for pn, ln in (('pI01', elt.Lname1), ('pI02', elt.Lname2)):
+                    a = sn.elements[ln].args
+                    params[pn] = rat(ConstantDomainExpression(a[1]).sympy, point) if len(a) > 1 and a[1] is not None else '0/1'
             except CaseTimeout:
                 raise
             except Exception:
@@ -234,7 +318,16 @@ def mk(lines):
 
 
 def sval(x, point):
-    """X(s) at s0 for a Superposition / expression"""
+    """X(s) at s0 for a Superposition / expression (ac: the phasor of the single angular frequency)"""
+    if AC[0]:
+        if isinstance(x, dict):
+            vals = list(x.values())
+            if len(vals) == 0:
+                return '0/1|0/1'
+            if len(vals) == 1:
+                return crat(vals[0], point)
+            return None
+        return crat(x, point)
     try:
         return rat(x(lcapy.s), point)
     except CaseTimeout:
@@ -293,6 +386,8 @@ def model_lines(kind, point, V, Z, I, Y, which, p, m):
     Voc / Isc as s-domain expressions; for a dc analysis the source is attached as a dc source of
     value s0 * X(s0) (X(s) = d/s for a constant d), otherwise as an s-domain source."""
     def src(x):
+        if kind == 'ac':
+            return 'ac {%s} 0 %s' % (x, point['omega'])
         if kind == 'dc':
             d = sp.Rational(rat(x, point)) * point['s']
             return 'dc {%s}' % d
@@ -327,6 +422,14 @@ def model_lines(kind, point, V, Z, I, Y, which, p, m):
     return out
 
 
+def srcexpr(sup):
+    """the model's own source value as an expression for the netlist of the returned model"""
+    if AC[0]:
+        vals = list(sup.values()) if isinstance(sup, dict) else [sup]
+        return sp.sympify(vals[0].sympy) if vals else sp.Integer(0)
+    return sup(lcapy.s).sympy
+
+
 def run_net(case, point):
     state.current_sign_convention = case.get('convention', 'passive')
     lines = case['netlist']
@@ -342,7 +445,19 @@ def run_net(case, point):
     subs = cd.sub
     kinds = [str(k) for k in subs.keys()]
     res['kinds'] = kinds
-    if len(kinds) == 1 and kinds[0] in ('dc', 'transient', 'ivp'):
+    ackeys = [k for k in subs.keys() if not isinstance(k, str)]
+    if len(kinds) == 1 and len(ackeys) == 1 and sp.sympify(ackeys[0]).is_Rational:
+        # a single angular frequency: phasor analysis; immittances are taken at s = j omega
+        w = sp.Rational(sp.sympify(ackeys[0]))
+        AC[0] = True
+        point['omega'] = w
+        point['s'] = sp.I * w
+        res['kind'] = 'ac'
+        res['omega'] = '%d/%d' % (w.p, w.q)
+        d = dump_sub(subs[ackeys[0]], point)
+        d['kind'] = 'ac'
+        res['dumps'] = {'orig': d}
+    elif len(kinds) == 1 and kinds[0] in ('dc', 'transient', 'ivp'):
         kind = kinds[0]
         res['kind'] = kind
         res['dumps'] = {'orig': dump_sub(subs[kind], point)}
@@ -374,13 +489,13 @@ def run_net(case, point):
         th = mk(lines).thevenin(p, m)
         check_exact(th, 'th')
         models['th'] = th
-        return rat(th.Voc(lcapy.s), point)
+        return sval(th.Voc, point)
 
     def nort():
         nt = mk(lines).norton(p, m)
         check_exact(nt, 'nt')
         models['nt'] = nt
-        return rat(nt.Isc(lcapy.s), point)
+        return sval(nt.Isc, point)
     attempt(api, 'thVoc', thev, point, tm)
     if 'th' in models:
         attempt(api, 'thZ', lambda: rat(models['th'].Z, point), point)
@@ -414,7 +529,7 @@ def run_net(case, point):
     # the model's source is attached the way the original's sources are: as a dc source when all of them are dc
     # (Lcapy then chooses dc / ivp analysis for original+load and model+load alike), as an s-domain source when none is;
     # a mixture of dc and causal sources is not a single signal kind: no load comparison
-    srckind = 'dc' if (groups == ['dc'] and res.get('kind') != 'ivp') else 's'
+    srckind = 'ac' if AC[0] else ('dc' if (groups == ['dc'] and res.get('kind') != 'ivp') else 's')
     if case.get('load') and len(groups) <= 1:
         ld = subst_load(case['load'], p, m)
         if groups == ['dc'] and res.get('kind') != 'ivp':
@@ -429,14 +544,14 @@ def run_net(case, point):
         if 'th' in models:
             def lt():
                 th = models['th']
-                V = th.Voc(lcapy.s).sympy
+                V = srcexpr(th.Voc)
                 Z = th.Z.sympy
                 return {'vi': load_response(model_lines(srckind, point, V, Z, None, None, 'thev', p, m) + mg + ld, p, m, cur, point)}
             attempt(res['load'], 'thev', lt, point, tm)
         if 'nt' in models:
             def ln():
                 nt = models['nt']
-                I = nt.Isc(lcapy.s).sympy
+                I = srcexpr(nt.Isc)
                 Y = nt.Y.sympy
                 return {'vi': load_response(model_lines(srckind, point, None, None, I, Y, 'nort', p, m) + mg + ld, p, m, cur, point)}
             attempt(res['load'], 'nort', ln, point, tm)
@@ -476,13 +591,13 @@ def run_oneport(case, point):
         th = build_tree(case['tree']).thevenin()
         check_exact(th, 'th')
         models['th'] = th
-        return rat(th.Voc(lcapy.s), point)
+        return sval(th.Voc, point)
 
     def nort():
         nt = build_tree(case['tree']).norton()
         check_exact(nt, 'nt')
         models['nt'] = nt
-        return rat(nt.Isc(lcapy.s), point)
+        return sval(nt.Isc, point)
     attempt(api, 'thVoc', thev, point, tm)
     if 'th' in models:
         attempt(api, 'thZ', lambda: rat(models['th'].Z, point), point)
@@ -512,6 +627,7 @@ def run_oneport(case, point):
 
 
 def run(case):
+    AC[0] = False
     TP_SRC_BY_CLASS.clear()
     TP_SRC_BY_CLASS.update(case.get('tp_src', {}))
     point = {'s': sp.Rational(case.get('s0', '2'))}
